@@ -18,6 +18,7 @@ def build(asm, tier):
     asm.file('spec/merge_spec.rs')
     asm.file('spec/kmerge_spec.rs')
     asm.raw(al.leaf_spec_text(), 'generated remainder definitions')
+    asm.file('spec/lmul_spec.rs')
     asm.file('spec/fn_algebra.rs')
     asm.raw(al.CONV_SPEC, 'upcast / negation / difference predicates of the macro layer')
     asm.raw(al.LEMMAS, 'algebra lemmas')
@@ -26,7 +27,7 @@ def build(asm, tier):
     asm.raw(stubs + al.MERGE_STUBS, 'assumed callee contracts (BTreeMap-merge leaves)')
     for n in names:
         asm.stubs.append(dict(unit=n, proved_in=''))
-    for u in al.zero_linear() + al.zero_quadratic_polynomial() + al.from_units() + [al.linear_add_f64(), al.linear_mul_f64(), al.quadratic_add_f64(), al.quadratic_mul_f64(), al.polynomial_mul_f64(), al.function_add(), al.function_mul(), al.linear_add_linear(), al.linear_new(), al.quadratic_add_linear(), al.quadratic_quad_iter(), al.quadratic_from_iter(), al.quadratic_add_quadratic()] + al.macro_units() + al.typed_macro_units():
+    for u in al.zero_linear() + al.zero_quadratic_polynomial() + al.from_units() + [al.linear_add_f64(), al.linear_mul_f64(), al.quadratic_add_f64(), al.quadratic_mul_f64(), al.polynomial_mul_f64(), al.function_add(), al.function_mul(), al.linear_add_linear(), al.linear_new(), al.quadratic_add_linear(), al.quadratic_quad_iter(), al.quadratic_from_iter(), al.quadratic_add_quadratic(), al.linear_mul_linear()] + al.macro_units() + al.typed_macro_units():
         asm.unit(u)
     asm.raw('} // mod units\n')
     asm.guard(common.guard_fn('c02', '', uses='use super::lib::*;'), 'vacuity: prelude')
@@ -43,5 +44,5 @@ proof fn vacuity_pre(r: v1::Function, a: v1::Function, b: v1::Function, m: Map<u
             'R25 index loop for `for term in &mut self.terms`; `.expect("Empty Function")` treated as unwrap (panic on an unset oneof: precondition of the operators)',
         ],
         assumptions=common.A1 + ['operands of Function + / * have their oneof set (the code panics otherwise: observation outside the property)'],
-        not_covered=['the BTreeMap-merge leaves other than Linear+Linear, Linear::new, Quadratic+Linear, Quadratic+Quadratic, FromIterator for Quadratic, and the term iterators (IntoIterator for &Linear/&Quadratic/&Polynomial/&Function)', 'the size of the epsilon-drop remainder'],
+        not_covered=['the BTreeMap-merge leaves other than Linear+Linear, Linear::new, Linear*Linear, Quadratic+Linear, Quadratic+Quadratic, FromIterator for Quadratic, and the term iterators (IntoIterator for &Linear/&Quadratic/&Polynomial/&Function)', 'the size of the epsilon-drop remainder'],
     )
